@@ -327,3 +327,9 @@ func VerifC15_Consolidator() {
 	}
 	verifReach("consolidated")
 }
+
+// larger bounds for the thorough tier
+func VerifC15_Retry7()    { verifC15Retry(7, 30*time.Second) }
+func VerifC15_Utf8_3()    { verifC15Utf8(3) }
+func VerifC15_Split_2_3() { verifC15Split(2, 3) }
+func VerifC15_Pipeline5() { verifC15Pipeline(5) }
